@@ -136,7 +136,7 @@ CLAIMED = {
              'the symbol from data + error codewords (placement, fixed corner pattern, finder/clock/alignment) and decoding the pixels '
              '(strict parsing, placement read-out, error correction) hands exactly the data codewords to the data decoder -- composition of '
              'C06, C07 (table, bijection, values), C08 (parse of rendering) and the weight-0 case of the error decoder; so the two observation '
-             'routes of the property agree for every input and configuration (C01_routes_agree). C01_ascii_plan_roundtrip / C01_ascii_only_roundtrip: the data layer for every byte string and list whenever the plan is "stay in ASCII" (encoder theorem composed with C04), which is proved to be the only possible answer of the optimiser when only ASCII is enabled -- for that configuration the whole property is a theorem. PARTIAL: the data layer under the other plans, '
+             'routes of the property agree for every input and configuration (C01_routes_agree). C01_ascii_plan_roundtrip / C01_ascii_only_roundtrip: the data layer for every byte string and list whenever the plan is "stay in ASCII" (encoder theorem composed with C04), which is proved to be the only possible answer of the optimiser when only ASCII is enabled; C01_base256_only_roundtrip: likewise for the Base256-only configuration (plan "Base256 to the end", length field in all three forms) -- for these two configurations the whole property is a theorem. PARTIAL: the data layer under the other plans, '
              'decode_data(data codewords of encode(x)) = x for every x and configuration, is the composition of C02 and C04 and is not yet a '
              'theorem. The check evaluates it on every case: structured inputs x symbol lists x 63 mode subsets x macro x FNC1 are encoded and '
              'decoded both ways by the implementation (and by the correspondence-tied model) and compared with the input. Eight round-trip '
@@ -215,7 +215,7 @@ CLAIMED = {
              'the supplied list and the stream has exactly its number of data codewords; C02_error_codewords -- followed by exactly k*B error '
              'codewords forming RS codewords (C06); C02_padding / C02_padding_form / C02_randomised_pad -- what the mode encoders wrote is never '
              'truncated and is followed, if capacity remains, by [254 unless in ASCII], 129 and pads randomised by the 253-state algorithm at their '
-             'positions, to exactly the capacity; C02_header -- 232, 236/237, 241+designator come first in this order; C02_ascii_plan_conformant / C02_ascii_only_conformant -- under the plan "stay in ASCII" (the only possible plan when only ASCII is enabled) the whole stream is the rendering of a legal script of Spec/Stream16022.v. PARTIAL: that the part between '
+             'positions, to exactly the capacity; C02_header -- 232, 236/237, 241+designator come first in this order; C02_ascii_plan_conformant / C02_ascii_only_conformant -- under the plan "stay in ASCII" (the only possible plan when only ASCII is enabled), and C02_base256_only_conformant for the Base256-only configuration, the whole stream is the rendering of a legal script of Spec/Stream16022.v. PARTIAL: that the part between '
              'header and padding is a legal mode stream decoding to the input is NOT a theorem (it needs the stream grammar for all six encoders); it '
              'is decided per case by tools/props/refdec.py, an independent decoder written from ISO/IEC 16022 5.2 (mode tracking, shift sets, '
              'Base256 field, end-of-symbol rules, pad check), run on the implementation\'s streams for structured inputs x lists x mode subsets x '
